@@ -78,7 +78,7 @@ def gen_cases(rng, n):
 
 def run(ctx):
     rng = random.Random(ctx["seed"])
-    n = 5000 if ctx["tier"] == "thorough" else 300
+    n = 5000 if ctx["tier"] == "thorough" else 600
     cases = simcheck.load_corpus("C09") + gen_cases(rng, n)
     results = simcheck.run_cases(ctx, "harness.props.c09", cases)
     # (iii) fresh processes, unpinned hashes, other PYTHONHASHSEED, shifted heap
